@@ -877,21 +877,37 @@ theorem del_leaves_others_unchanged (md : Nat) (lower : PStr → PStr) (b : Buil
     | some p => simp [dictGet_del_self]
 
 /-- A copy (`copy_self`) holds the same kind of dictionary as the original, keeps `is_xml`, uses the default list
-    class, and its values are the original's values assigned through that dictionary class (lists in new lists) —
-    unless the discarded builder-less first pass raised. -/
-theorem copy_keeps_container (md : Nat) (lower : PStr → PStr) (b : BuilderCfg) (st st' : Hist) (i : Nat)
-    (n : PStr) (t : TagAttrs) (hi : st[i]? = some (n, t)) (h : histStep md lower b st (.copy i) = .ok st') :
-    ∃ t', st' = st ++ [(n, t')] ∧ t'.cls = t.cls ∧ t'.listCls = 1 ∧ t'.isXml = t.isXml ∧
-      copyInto md t.cls t.items [] = .ok t'.items := by
-  simp only [histStep, hi, copyTag, tagInit] at h
-  cases h0 : copyInto md (if t.isXml then DictClass.xml else DictClass.html) t.items [] with
-  | valueError => simp [h0, Res.bind] at h
-  | ok d0 =>
-    cases hc : copyInto md t.cls t.items [] with
-    | valueError => simp [h0, hc, Res.bind] at h
-    | ok d' =>
-      simp only [h0, hc, Res.bind, Res.ok.injEq] at h
-      exact ⟨_, h.symm, rfl, rfl, rfl, rfl⟩
+    class, and its values are the original's values assigned through that dictionary class (lists in new lists); it
+    fails only if that assignment fails (an HTML/XML container meeting an int beyond the digit limit). -/
+theorem copy_keeps_container (md : Nat) (lower : PStr → PStr) (b : BuilderCfg) (st : Hist) (i : Nat)
+    (n : PStr) (t : TagAttrs) (hi : st[i]? = some (n, t)) :
+    (∀ st', histStep md lower b st (.copy i) = .ok st' →
+      ∃ t', st' = st ++ [(n, t')] ∧ t'.cls = t.cls ∧ t'.listCls = 1 ∧ t'.isXml = t.isXml ∧
+        copyInto md t.cls t.items [] = .ok t'.items) ∧
+    (histStep md lower b st (.copy i) = .valueError ↔ copyInto md t.cls t.items [] = .valueError) := by
+  simp only [histStep, hi, copyTag, tagInit]
+  cases hc : copyInto md t.cls t.items [] with
+  | valueError => simp [Res.bind]
+  | ok d' =>
+    refine ⟨?_, by simp [Res.bind]⟩
+    intro st' h
+    simp only [Res.bind, Res.ok.injEq] at h
+    exact ⟨_, h.symm, rfl, rfl, rfl, rfl⟩
+
+/-- a copy of a tag whose *plain* dictionary holds anything at all never fails and holds exactly the same items -/
+theorem copy_of_plain_dict_never_fails (md : Nat) (lower : PStr → PStr) (n : PStr) (lc : Nat) (x : Bool) (d : Items)
+    (hnd : (keys d).Nodup) : copyTag md lower n ⟨.plain, lc, d, x⟩ = .ok ⟨.plain, 1, d, x⟩ := by
+  have := copyInto_plain md d [] (by simpa using hnd)
+  simp only [List.nil_append] at this
+  simp [copyTag, tagInit, this, Res.bind]
+
+/-- Documentation of the defect repaired by fixes/C17-copy-no-constructor-pass.diff: with the constructor still handed
+    the attributes, copying a tag whose plain dictionary holds an int beyond the digit limit raised `ValueError` (the
+    discarded HTML container called `str()` on it), while the repaired copy keeps the value. -/
+theorem copy_first_pass_raises_old :
+    copyTagOld 2 pyLower (ofS "a") ⟨.plain, 1, [(ofS "n", .int 100)], false⟩ = .valueError ∧
+    copyTag 2 pyLower (ofS "a") ⟨.plain, 1, [(ofS "n", .int 100)], false⟩
+      = .ok ⟨.plain, 1, [(ofS "n", .int 100)], false⟩ := by decide +kernel
 
 /-- … and for a tag as a parser leaves it (distinct keys, strings and lists) the copy's attributes are exactly the
     original's, whatever the dictionary class. -/
